@@ -1,7 +1,7 @@
 (* Properties_C13.v — property C13: coordination-graph maximisers return what they claim.
    Only statements, each closed by [exact <lemma>] and followed by Print Assumptions. *)
 From Coq Require Import List Arith QArith Lia.
-From AIT Require Import C13.Model C13.Spec C13.ProofsBase C13.ProofsGraph C13.Proofs C13.ProofsLS C13.ProofsMO1 C13.ProofsMO3 C13.ProofsMO5 C13.ProofsSqrt.
+From AIT Require Import C13.Model C13.Spec C13.ProofsBase C13.ProofsGraph C13.Proofs C13.ProofsLS C13.ProofsMO1 C13.ProofsMO3 C13.ProofsMO5 C13.ProofsSqrt C13.ProofsUCVE.
 Import ListNotations.
 Local Open Scope nat_scope.
 
@@ -107,6 +107,25 @@ Print Assumptions sqrt_sum_le_false_sound.
 
 Example ex_sqrt_sum_le : sqrt_sum_le (11 # 4) 10 (7 # 2) 6 = true /\ sqrt_sum_le (7 # 2) 6 (11 # 4) 10 = false.
 Proof. split; vm_compute; reflexivity. Qed.
+
+(* UCVE model, bound bookkeeping (partial): the variance range beginRemoval takes from a factor
+   contains the bonus of every entry of every rule of that factor, and contains 0 whenever the
+   factor has fewer rules than local joint actions (an unmentioned local action is worth (0,0)).
+   The full statement -- pruning with the bounds x_l <= X <= x_u never removes an entry of an optimal
+   joint action, hence [ucve] returns an action maximising mean + sqrt(bonus * logtA / 2) -- is NOT
+   proved; see notes/C13.md. *)
+Theorem uc_range_sound : forall A (nd : mo_node),
+  (forall i f e, In (i, f) (snd nd) -> In e f ->
+     (snd (uc_range A nd) <= e_b e)%Q /\ (e_b e <= fst (uc_range A nd))%Q) /\
+  (length (snd nd) < psize (fst nd) A -> (snd (uc_range A nd) <= 0)%Q /\ (0 <= fst (uc_range A nd))%Q).
+Proof. exact uc_range_sound_lemma. Qed.
+Print Assumptions uc_range_sound.
+
+(* the model reproduces the coordinator's witness of seed C13-r3-2: optimum 1/2 via (1,1,.,.) *)
+Example ex_ucve_model :
+  snd (ucve [2; 2; 2; 2] 2 [ (([0; 1], [1; 1]), [(-1 # 2)%Q; 1%Q]); (([2; 3], [1; 1]), [(-20 # 1)%Q; 100%Q]) ] [0; 1; 2; 3])
+  = ((-1 # 2)%Q, 1%Q).
+Proof. vm_compute. reflexivity. Qed.
 
 (* hypotheses are satisfiable on a non-trivial input: 3 agents (agent 2 unmentioned), overlapping
    and nested key sets, a duplicate rule, a negative payoff, missing entries; eliminated in the
